@@ -320,8 +320,8 @@ def e1_cases(tier):
                         for mi, (s, hs) in enumerate(mem):
                             if noise == 1.0 and mi >= 3:
                                 continue        # second noise level: first three members only
-                            # quick: MaxSinr / MMSE (no cost sequence to follow) skip 3 and 10
-                            its = ITERS if (thorough or name in ITERATIVE[:2]) else (1, 2, 5, 20)
+                            # quick: MaxSinr / MMSE (no cost sequence to follow) skip 3, 5 and 10
+                            its = ITERS if (thorough or name in ITERATIVE[:2]) else (1, 2, 20)
                             iters = ([0] if init in ("random", "svd") else []) + list(its)
                             out.append(dict(part="E1", solver=name, K=K, Nr=list(Nr), Nt=list(Nt), Ns=Ns,
                                             best=None, init=init, P=P, noise=noise, s=s, hscale=hs,
@@ -1070,7 +1070,7 @@ class E3Job:
         if not bad:
             chk.count("states_all_views_coherent")
         # ---- fresh-solver differential: the library on a fresh object agrees with the model
-        if not md["Flist"]:
+        if not md["Flist"] and not (ev is not None and ev[0] == "read"):     # (a read leaves the model as is)
             f = self.new_solver(md["chan"])
             if md["FFx"] is not None:
                 f.set_precoders(full_F=obj_array([np.array(x) for x in md["FFx"]]), P=np.array(md["P"]))
@@ -1114,7 +1114,10 @@ class E3Job:
                 if e[0] != "read":
                     break
                 recent.add(e)
-            return [e for e in job.events if e not in recent]
+            evs = [e for e in job.events if e not in recent]
+            if chk.tier != "thorough" and any(e[0] == "chan" for e in hist):
+                evs = [e for e in evs if e[0] != "chan"]     # quick: one channel event per history
+            return evs
 
         def invariant(hist, st):
             case = dict(part="E3", base=job.base, history=[list(e) for e in hist])
